@@ -191,7 +191,8 @@ impl Response {
         {
             let mut body: Vec<u8> = Vec::new();
 
-            while let Some(chunk) = parse_chunk(&mut reader) {
+            // A chunked body is only complete once its terminating zero-length chunk has been read
+            while let Some(chunk) = parse_chunk(&mut reader).ok_or(ResponseError::Stream)? {
                 body.extend(chunk);
             }
 
@@ -260,7 +261,9 @@ impl From<Response> for Vec<u8> {
 }
 
 /// Parses a chunk using the chunked transfer encoding.
-fn parse_chunk<T>(stream: &mut BufReader<T>) -> Option<Vec<u8>>
+///
+/// Returns `Some(None)` for the terminating zero-length chunk and `None` if the chunk is malformed or incomplete.
+fn parse_chunk<T>(stream: &mut BufReader<T>) -> Option<Option<Vec<u8>>>
 where
     T: Read,
 {
@@ -271,11 +274,11 @@ where
 
     if length == 0 {
         stream.read_exact(&mut [0u8, 0]).ok()?;
-        None
+        Some(None)
     } else {
         let content_buf = read_exact_bounded(stream, length)?;
         stream.read_exact(&mut [0u8, 0]).ok()?;
-        Some(content_buf)
+        Some(Some(content_buf))
     }
 }
 
